@@ -208,8 +208,14 @@ def r3(ctx, v, prog, mod):
                 if not fatal:
                     # no-return calls cut the block, so `other` excludes instructions after them; check for fatal inside
                     fatal = not any(y.op == 'ret' for y in other)
-                if retry and fatal: ok = True; break
-                why = 'retry=%s fatal=%s' % (retry, fatal)
+                cleared = True
+                if kind == 'fread':
+                    # the stdio error flag is sticky: the retry edge must pass clearerr() before the call is made again,
+                    # otherwise the loop's own ferror() test turns the next end of file into a read error
+                    clr = [y for y in fn.ins if y.op == 'call' and y.callee == 'clearerr']
+                    cleared = bool(clr) and c not in cfg.reach_from_block(fn.bmap[eq_t], avoid=clr)
+                if retry and fatal and cleared: ok = True; break
+                why = 'retry=%s fatal=%s clearerr-before-retry=%s' % (retry, fatal, cleared)
             if ok: rep.ok('C14.R3', '%s yyread %s@%s: EINTR retried, other errors fatal' % (v.name, kind, c.line))
             else: rep.fail('C14.R3', key + ':discipline', where(c), 'error handling after %s in yyread: %s [variant %s]' % (kind, why, v.name), variant=v.describe())
         else:
